@@ -466,6 +466,7 @@ FAMILIES = [
     ["zoo_ver::WrapV1", "zoo_ver::WrapV2", "zoo_ver::WrapV3"],
     [f"zoo_ver::Big{k}" for k in range(6)],
     ["zoo_ver::DeepV1", "zoo_ver::DeepV2", "zoo_ver::DeepV3"],
+    ["zoo_ver::HoldV1", "zoo_ver::HoldV2"],
     # SET whose later addition has a lower tag than an earlier one
     ["zoo_ver::SetV1", "zoo_ver::SetV2"],
 ]
@@ -545,6 +546,9 @@ class CrossVersion(UperBase):
         if a[1].startswith("readerr:"):
             # unknown CHOICE / ENUMERATED extension values may be reported as an error by an older reader
             if not newer_reader and ("Cho" in name_w or "Enu" in name_w) and a[1] in ("readerr:choice-index",):
+                return None
+            # HoldV2 -> HoldV1: the SET holds a CHOICE value of an alternative the older version does not have
+            if not newer_reader and "Hold" in name_w and a[1] == "readerr:choice-index" and "(choice 1 " in items[2]:
                 return None
             return f"reader of the other version fails with {a[1]}"
         got = uperlib.parse_sx(a[1])
